@@ -178,7 +178,42 @@ func parseReports(text string) (inRepo []raceReport, external int) {
 
 // ---- workloads ---------------------------------------------------------------------------------------
 
+// threadsWorkload runs a few clients on an instance whose own background threads (checkpoint, statistics) are running
+// and then shuts the instance down through the public Shutdown while they are alive.
+func threadsWorkload(c *Case) bool {
+	dbh.NoBackground(false)
+	defer dbh.NoBackground(true)
+	dir := dbh.TempDir("c19th")
+	defer os.RemoveAll(dir)
+	db := dbh.Open(dir+"/db", 800, true)
+	db.FrontDoor("CREATE TABLE t(id int, g int, v int);")
+	for i := 0; i < 20; i++ {
+		db.FrontDoor(fmt.Sprintf("INSERT INTO t(id, g, v) VALUES (%d, %d, 0);", i, i%4))
+	}
+	var wg sync.WaitGroup
+	for w := 0; w < 3; w++ {
+		wg.Add(1)
+		go func(w int) {
+			defer wg.Done()
+			for n := 0; n < 40; n++ {
+				if n%2 == 0 {
+					db.S.ExecuteSQL(fmt.Sprintf("UPDATE t SET v = %d WHERE g = %d;", n, (w+n)%4))
+				} else {
+					db.S.ExecuteSQL(fmt.Sprintf("SELECT id, v FROM t WHERE g = %d;", (w+n)%4))
+				}
+			}
+		}(w)
+	}
+	wg.Wait()
+	time.Sleep(50 * time.Millisecond)
+	func() { defer func() { recover() }(); db.Shutdown() }()
+	return true
+}
+
 func runWorkload(c *Case) (overlap bool, f *vf.Failure) {
+	if c.Workload == "threads" {
+		return threadsWorkload(c), nil
+	}
 	dbh.NoBackground(true)
 	var db *dbh.DB
 	dir := ""
@@ -256,8 +291,15 @@ func runWorkload(c *Case) (overlap bool, f *vf.Failure) {
 		for n := 0; n < c.Ops/2+1; n++ {
 			enter()
 			t := db.Begin()
+			mustAbort := false
 			for k := 0; k < 1+rng.Intn(3) && !t.Done; k++ {
-				switch rng.Intn(3) {
+				switch rng.Intn(4) {
+				case 3: // deletes that are rolled back afterwards (the rows stay for the other clients): concurrent RollbackDelete on shared pages
+					t.ExecSQL(fmt.Sprintf("DELETE FROM t WHERE id = %d;", rng.Intn(40)), nil)
+					if !t.Done && rng.Intn(2) == 0 {
+						t.ExecSQL(fmt.Sprintf("DELETE FROM t WHERE id = %d;", rng.Intn(40)), nil)
+					}
+					mustAbort = true
 				case 0:
 					t.ExecSQL(fmt.Sprintf("SELECT id, v FROM t WHERE id = %d;", rng.Intn(40)), nil)
 				case 1:
@@ -268,7 +310,7 @@ func runWorkload(c *Case) (overlap bool, f *vf.Failure) {
 				}
 			}
 			if !t.Done {
-				if rng.Intn(4) == 0 {
+				if mustAbort || rng.Intn(4) == 0 {
 					t.Abort()
 				} else {
 					t.Commit()
@@ -427,7 +469,7 @@ func indexWorkload(db *dbh.DB, c *Case) bool {
 
 // ---- test ------------------------------------------------------------------------------------------------
 
-const rule = "Case = one run of a concurrent workload in a -race binary: 'sql' (4-12 goroutines calling SamehadaDB.ExecuteSQL: multi-row updates, selects, inserts, deletes, joins, relocating updates), 'txn' (multi-statement transactions through parser/optimizer/planner/executors with commit/abort), 'mixed' (both + a goroutine forcing checkpoints and refreshing table statistics + a client creating tables), 'ddl' (sql/txn clients + a client creating tables all through the run + goroutines refreshing the statistics of every table without pause), 'index:<kind>' (inserters/deleters/readers/range scanners on one skip-list / unique-skip-list / B-tree / hash index); pools small enough to evict; in-memory and file-backed storage. Oracle: every WARNING: DATA RACE report of the Go race detector whose racing accesses have a frame inside github.com/ryogrid/SamehadaDB/lib is a violation, identified by the unordered pair of innermost repository functions (reports entirely inside third-party modules or the harness are counted but do not count). Non-trivial = a run in which at least two goroutines were inside engine calls at the same time."
+const rule = "Case = one run of a concurrent workload in a -race binary: 'sql' (4-12 goroutines calling SamehadaDB.ExecuteSQL: multi-row updates, selects, inserts, deletes, joins, relocating updates), 'txn' (multi-statement transactions through parser/optimizer/planner/executors with commit/abort), 'mixed' (both + a goroutine forcing checkpoints and refreshing table statistics + a client creating tables), 'ddl' (sql/txn clients + a client creating tables all through the run + goroutines refreshing the statistics of every table without pause), 'threads' (clients on an instance whose own checkpoint and statistics threads run, ended by the public Shutdown), 'index:<kind>' (inserters/deleters/readers/range scanners on one skip-list / unique-skip-list / B-tree / hash index); pools small enough to evict; in-memory and file-backed storage. Oracle: every WARNING: DATA RACE report of the Go race detector whose racing accesses have a frame inside github.com/ryogrid/SamehadaDB/lib is a violation, identified by the unordered pair of innermost repository functions (reports entirely inside third-party modules or the harness are counted but do not count). Non-trivial = a run in which at least two goroutines were inside engine calls at the same time."
 
 var assumptions = []string{
 	"the race detector only sees executed schedules; absence of reports is not absence of races",
@@ -445,7 +487,7 @@ func TestRace(t *testing.T) {
 		t.Skip("VERIF_RACE_LOG not set (driver sets GORACE log_path)")
 	}
 	rng := rand.New(rand.NewSource(s.Seed*6151 + int64(s.Shard)))
-	workloads := []string{"sql", "txn", "mixed", "index:" + dbh.IdxSkip, "mixed", "index:" + dbh.IdxUniqSkip, "sql", "index:" + dbh.IdxBtree, "ddl", "index:" + dbh.IdxHash}
+	workloads := []string{"sql", "txn", "mixed", "index:" + dbh.IdxSkip, "mixed", "index:" + dbh.IdxUniqSkip, "sql", "index:" + dbh.IdxBtree, "ddl", "index:" + dbh.IdxHash, "threads"}
 	runs := s.Pick(8, 40)
 	hangs := 0
 	for i := 0; i < runs; i++ {
